@@ -5022,7 +5022,9 @@ evhttp_uri_new(void)
 void
 evhttp_uri_set_flags(struct evhttp_uri *uri, unsigned flags)
 {
-	uri->flags = flags;
+	/* whether the stored host lost its brackets is not the caller's to say */
+	uri->flags = (flags & ~_EVHTTP_URI_HOST_HAS_BRACKETS) |
+	    (uri->flags & _EVHTTP_URI_HOST_HAS_BRACKETS);
 }
 
 /* Return true if the string starting at s and ending immediately before eos
